@@ -1,12 +1,12 @@
 SPECIFICATION Spec
 CONSTANTS
   N = 1
-  MaxTime = 13
+  MaxTime = 10
   MaxSkew = 1
-  Budget = 1
-  Variant = "design"
+  Budget = 0
+  Variant = "ctxcheckfirst"
   Faults <- WriteFaults
-  MaxToggle = 3
+  MaxToggle = 2
   Removal = TRUE
   Remotes <- RemotesNone
   MaxWaits = 99
@@ -19,8 +19,8 @@ CONSTANTS
   HealOdds = 3
   ListLag = FALSE
   FixSkew = FALSE
-  MaxMods = 0
+  MaxMods = 1
   Edge = FALSE
 VIEW View
-INVARIANTS TypeOK InvHolderHasFile InvFresh InvNoWriteAfterCancel InvExclusion InvNotStale
+INVARIANTS TypeOK InvHolderHasFile InvFresh InvNoWriteAfterCancel
 CHECK_DEADLOCK FALSE
